@@ -371,17 +371,42 @@ class EvalAnalysis:
                 return None
             return "ForecastingHorizon(%s.index, is_relative=%r)" % (src, cval(rel))
         if isinstance(core, T) and core.op == "attr" and core.a[1] == "fh" and self.is_cv(core.a[0]):
-            return "cv.fh"
+            return REL
         if is_call(core, fn(VMOD + "check_fh")) and core.a[1] and isinstance(core.a[1][0], T) \
                 and core.a[1][0].op == "attr" and core.a[1][0].a[1] == "fh" and self.is_cv(core.a[1][0].a[0]):
-            return "cv.fh"
+            return REL
+        if is_mcall(core, "get_fh") and not core.a[1] and not core.a[2] and self.is_cv(core.a[0].a[0]) and self._get_fh_is_fh():
+            return REL
         if core == NONE:
             return "None"
         lab = self.label(core)
         return lab
 
+    def _get_fh_is_fh(self):
+        """``BaseSplitter.get_fh()`` returns (the validated) ``self.fh``."""
+        if not hasattr(self, "_gf"):
+            self._gf = False
+            try:
+                k = self.repo.cls("sktime/forecasting/model_selection/_split.py:BaseSplitter")
+                f = k.methods.get("get_fh")
+                if f is not None:
+                    r = Interp(self.repo).run(k.module, f, {}, cls=k, defcls=k)
+                    cores = set()
+                    for _, t in r.returns:
+                        if is_call(t, fn(VMOD + "check_fh")) and t.a[1]:
+                            t = t.a[1][0]
+                        cores.add(t)
+                    self._gf = not r.unsupported and cores == {attr(P("self"), "fh")}
+            except AnalysisError:
+                self._gf = False
+        return self._gf
 
-FH_OK = ("ForecastingHorizon(y[test].index, is_relative=False)", "cv.fh")
+
+REL = "cv.fh (steps relative to the cutoff)"
+# predict must be asked for the test window's own labels; cutoff + k denotes the same labels only on an index without holes
+FH_OK = ("ForecastingHorizon(y[test].index, is_relative=False)",)
+# fit may also see the splitter's relative horizon (no observation flows, and predict decides what is forecast)
+FH_FIT_OK = FH_OK + (REL,)
 
 
 class Merged:
@@ -526,7 +551,7 @@ def check_evaluate(ctx, repo, out, x_given, callsig):
                           "forecaster.%s does not receive the exogenous training rows" % kind, L(ev), vkey="missing")
             if kind == "fit":
                 if "fh" in b:
-                    role_check(out, scen, "R2", "evaluate:fit(fh)", A.fh_label(b["fh"]), FH_OK, "horizon handed to forecaster.fit", L(ev))
+                    role_check(out, scen, "R2", "evaluate:fit(fh)", A.fh_label(b["fh"]), FH_FIT_OK, "horizon handed to forecaster.fit", L(ev))
                 else:
                     out.add(scen, "ok", "R2", "evaluate:fit(fh)", "no horizon passed to fit", L(ev))
             sig_names = set(astq.all_param_names(sig))
@@ -553,7 +578,8 @@ def check_evaluate(ctx, repo, out, x_given, callsig):
             continue
         option_args(out, scen, "predict", base.methods["predict"], b, ("fh", "X"), L(ev))
         if "fh" in b:
-            role_check(out, scen, "R2", "evaluate:predict(fh)", A.fh_label(b["fh"]), FH_OK, "horizon handed to forecaster.predict", L(ev))
+            role_check(out, scen, "R2", "evaluate:predict(fh)", A.fh_label(b["fh"]), FH_OK, "horizon handed to forecaster.predict", L(ev),
+                       " (relative steps from the cutoff are the test labels only on an index without holes)")
         else:
             out.add(scen, "undecided", "R2", "evaluate:predict(fh)", "predict is called without a horizon", L(ev))
         if "X" in b:
